@@ -319,6 +319,33 @@ func (in *Interp) syncIntrinsic(name string, args []Value) (Value, bool) {
 		}
 		m.readers--
 		return nil, true
+	case "(*sync.Pool).Get":
+		in.visible(name)
+		p := args[0].(*PtrV)
+		st := in.poolOf(p)
+		// any stored item may be returned; items may have been dropped (GC); otherwise New
+		k := in.chooseN("pool-get", len(st.items)+1)
+		if k < len(st.items) {
+			it := st.items[k]
+			st.items = append(append([]Value{}, st.items[:k]...), st.items[k+1:]...)
+			return it, true
+		}
+		if len(st.items) > 0 && in.chooseN("pool-gc", 2) == 1 {
+			st.items = nil // a garbage collection emptied the pool
+		}
+		so := p.cell.v.(*StructObj)
+		newFn, _ := so.f[in.fieldIndex(p, "New")].v.(*FuncV)
+		if newFn == nil {
+			return (*IfaceV)(nil), true
+		}
+		return in.callFunc(newFn, nil), true
+	case "(*sync.Pool).Put":
+		in.visible(name)
+		st := in.poolOf(args[0].(*PtrV))
+		if iv, _ := args[1].(*IfaceV); iv != nil {
+			st.items = append(st.items, iv)
+		}
+		return nil, true
 	case "sync/atomic.AddUint32", "sync/atomic.AddUint64", "sync/atomic.AddInt32", "sync/atomic.AddInt64":
 		in.visible(name)
 		p := args[0].(*PtrV)
@@ -421,4 +448,31 @@ func (in *Interp) sel(fr *frame, x *ssa.Select) Value {
 		res = append(res, r)
 	}
 	return res
+}
+
+type poolState struct{ items []Value }
+
+func (in *Interp) poolOf(p *PtrV) *poolState {
+	if p.cell == nil {
+		in.goPanic("nil *sync.Pool")
+	}
+	s, ok := in.side[p.cell].(*poolState)
+	if !ok {
+		s = &poolState{}
+		in.side[p.cell] = s
+	}
+	return s
+}
+
+// fieldIndex finds a field of sync.Pool by name.
+func (in *Interp) fieldIndex(p *PtrV, name string) int {
+	pkg := in.prog.ImportedPackage("sync")
+	st := pkg.Pkg.Scope().Lookup("Pool").Type().Underlying().(*types.Struct)
+	for i := 0; i < st.NumFields(); i++ {
+		if st.Field(i).Name() == name {
+			return i
+		}
+	}
+	in.unsupported("sync.Pool has no field %s", name)
+	return -1
 }
